@@ -204,8 +204,14 @@ def _child(script, argv, env, cwd, stdin_fd, out_fd, err_fd, logfd, world,
         except Exception:
             pass
         sys.argv = list(argv)
-        sys.stdin = io.TextIOWrapper(io.FileIO(0, 'r', closefd=False),
-                                     encoding='utf-8', errors='strict')
+        if (plan or {}).get('stdin_closed'):
+            # started with descriptor 0 closed (cron, `cmd <&-`): the next
+            # descriptor the program opens IS number 0
+            os.close(0)
+            sys.stdin = None
+        else:
+            sys.stdin = io.TextIOWrapper(io.FileIO(0, 'r', closefd=False),
+                                         encoding='utf-8', errors='strict')
         # the encoding of the standard streams is the locale's: the case may
         # ask for another one (PYTHONIOENCODING / a legacy locale)
         enc = (plan or {}).get('stdout_encoding') or 'utf-8'
